@@ -1,17 +1,41 @@
 """C20 - compilation and execution are deterministic.
 
 HX (history exploration).  Compile side: an alphabet of small programs, each
-touching one piece of process-wide or per-compilation state, is compiled in
-child processes (qv.c20_child) after every history of earlier compilations up
-to a bound, under several PYTHONHASHSEED values and two working directories;
-sections 1-4 of the module and the listing must equal those of the target
-compiled first in a fresh process.  The repository's snippets are additional
-targets (seed 0, forward order  vs  seed 1, reverse order, other chunking).
+touching one piece of process-wide or per-compilation state (DEFtype, CONST,
+TYPE, many labels + DATA, hidden locals + label counter, routines + STATIC, and
+programs that are rejected by the parser, by block assembly, by pass 1, 2, 3
+and by the code generator after having declared things), is compiled in child
+processes (qv.c20_child, never with the parse cache) under several
+PYTHONHASHSEED values and two working directories:
+
+  fresh   every program (quick: in O0 and O2g, thorough: every configuration)
+          as the only compilation of a fresh interpreter, seed 0, cwd A - the
+          reference digests
+  exact   (thorough) every history [h] in O2g and every [h1, h2] over five
+          state-changing programs in O2g, then the target, each sequence in
+          its own fresh interpreter
+  mixed   chains (one fresh interpreter per 200 compilations) in which every
+          ordered pair of (program, configuration) symbols occurs adjacently
+          (de Bruijn order 2 over programs x configurations): -g on/off and
+          the optimisation levels in the history of every target
+  deep    de Bruijn chains of order 3 over the programs in O0 (thorough: and
+          O2g), of order 3 (thorough: 4) over the state-changing programs in
+          O2g: every history of length 2 (3) immediately before every target
+  seeds   every symbol under every hash seed and both working directories
+
+Every single compilation of every family is judged: sections 1-4 of the module
+and the listing must equal the reference.  A chain makes the whole prefix
+compiled so far in that process the history of each of its compilations; when
+one differs, the parent looks for the shortest history that reproduces it in a
+fresh interpreter (suffixes of length 0..3, then the full prefix reduced
+greedily) and reports that.  The repository's snippets are additional targets
+(seed 0 forward order vs seed 1 reverse order, other chunking).
+
 Run side: every module x script is executed twice in this process and once in
-another process (other hash seed): same event trace, outcome, tick count;
-RND / RANDOMIZE programs additionally on a peripherals object derived from the
-shipped BasePeripheralsImpl.  Oracle: identity.  The debug section (5) is
-excluded by the property."""
+another process (other hash seed, reverse order): same event trace, outcome,
+tick count; RND / RANDOMIZE programs additionally on a peripherals object
+derived from the shipped BasePeripheralsImpl.  Oracle: identity.  The debug
+section (5) is excluded by the property."""
 import base64
 import difflib
 import json
@@ -29,20 +53,53 @@ LEVEL = 'exploration'
 ROOT = os.path.dirname(os.path.dirname(os.path.dirname(os.path.abspath(__file__))))
 
 # --- history alphabet ------------------------------------------------------
+# (name, source, kind expected on the unchanged tree, changes shared state?)
+# the expected kind is only used to report whether the alphabet still does
+# what it was designed for (coverage key alphabet_as_designed), never judged.
 PROGS = [
-    ('deftype', 'DEFINT A-C\nDEFSTR S\na = 7\ns = "x"\nd = 1.5\nPRINT a; s; d\n'),
-    ('const', 'CONST k = 3\nCONST m$ = "z"\nPRINT k * 2; m$\n'),
-    ('type', 'TYPE pt\nx AS INTEGER\ny AS LONG\nEND TYPE\nDIM p AS pt\np.y = 5\nPRINT p.x; p.y\n'),
-    ('labels-data', 'RESTORE two\nREAD a$, b\nPRINT a$; b\nGOTO fin\none: DATA "p", 1\ntwo: DATA q, 2\nfin: END\n'),
-    ('for-select', 'FOR i% = 1 TO 2\nSELECT CASE i%\nCASE 1\nPRINT "a"\nCASE ELSE\nPRINT "b"\nEND SELECT\nNEXT\n'),
-    ('sub-static', 'DECLARE SUB bump ()\nbump\nbump\nSUB bump\nSTATIC n%\nn% = n% + 1\nPRINT n%\nEND SUB\n'),
-    ('erroneous', 'DEFSTR A-Z\nCONST k = 5\nTYPE pt\nx AS STRING * 4\nEND TYPE\nfin: d = "q"\nSUB bump\nEND SUB\nGOTO nowhere\n'),
-    ('single-literal', 'x = 2.5\ny# = 0.1\nPRINT x * 3; y#; 7\n'),
-    ('print-only', 'PRINT "hi"; 1\n'),
+    ('deftype', 'DEFINT A-C\nDEFSTR S\nDEFDBL X-Z\na = 7\ns = "x"\nd = 1.5\ny = 2\nPRINT a; s; d; y\n', 'ok'),
+    ('const-lit', 'CONST k = 3\nCONST m$ = "z"\nx = 2.5\ny# = 0.1\nPRINT k * 2; m$; x * 3; y#; 7\n', 'ok'),
+    ('type', 'TYPE pt\nx AS INTEGER\ny AS LONG\nn AS STRING\nEND TYPE\nDIM p AS pt\np.y = 5\np.n = "ab"\n'
+             'PRINT p.x; p.y; p.n\n', 'ok'),
+    ('labels', 'ON ERROR GOTO eh\nREAD a$, b\nRESTORE two\nREAD c$\nGOSUB s1\nIF b = 2 THEN GOTO l2\n'
+               'l1: PRINT 1\nl2: PRINT 2\nl3: PRINT a$; c$\nGOTO fin\none: DATA "p", 2\ntwo: DATA q, 2\n'
+               's1: RETURN\neh: RESUME NEXT\n100 PRINT "h"\nzz9: PRINT "z"\nfin: END\n', 'ok'),
+    ('for-select', 'FOR i% = 1 TO 2\nSELECT CASE i%\nCASE 1\nPRINT "a"\nCASE ELSE\nPRINT "b"\nEND SELECT\nNEXT\n'
+                   'DO\nj% = j% + 1\nLOOP UNTIL j% > 1\nIF j% THEN PRINT j% + 1 * 2\n', 'ok'),
+    # the same names as in other programs with another meaning: pt, bump, k, y
+    ('routines', 'DECLARE SUB bump (k%)\nDECLARE FUNCTION twice! (v!)\nTYPE pt\ny AS DOUBLE\nEND TYPE\n'
+                 'DIM SHARED g AS pt\nbump 2\nbump 3\nPRINT twice(1.5); g.y\nSUB bump (k%)\nSTATIC n%\n'
+                 'n% = n% + k%\ng.y = n%\nEND SUB\nFUNCTION twice! (v!)\ntwice! = v! * 2\nEND FUNCTION\n', 'ok'),
+    ('print-only', 'PRINT "hi"; 1\n', 'ok'),
+    # rejected by the line parser after DEFtype / SUB / FOR / IF were seen
+    ('fail-syntax', 'DEFLNG A-Z\nSUB bump\nFOR i = 1 TO 3\nIF i THEN\nPRINT 1 +\n', 'syntax'),
+    # rejected while assembling blocks (FOR closed by WEND)
+    ('fail-block', 'DEFSTR A-Z\nTYPE pt\nx AS INTEGER\nEND TYPE\nlb: FOR i% = 1 TO 3\nPRINT i%\nWEND\n', 'syntax'),
+    # pass 1: duplicate label, after DEFSTR / CONST / TYPE / SUB
+    ('fail-pass1', 'DEFSTR A-Z\nCONST k = 5\nTYPE pt\nx AS STRING\nEND TYPE\nfin: d = "q"\nSUB bump\nEND SUB\n'
+                   'fin: PRINT 1\n', 'compile'),
+    # pass 2: undefined label, after DEFSTR / CONST / TYPE / DIM / STATIC
+    ('fail-pass2', 'DEFSTR A-Z\nCONST k = 5\nTYPE pt\nx AS STRING\nEND TYPE\nDIM p AS pt\nfin: d = "q"\n'
+                   'SUB bump\nSTATIC n%\nEND SUB\nGOTO nowhere\n', 'compile'),
+    # pass 3: assignment to a function, after DEFDBL / DATA / FOR
+    ('fail-pass3', 'DEFDBL A-Z\nDECLARE FUNCTION f% (a%)\none: DATA 1, 2\nFOR i% = 1 TO 2\nNEXT\nf% = 3\n'
+                   'FUNCTION f% (a%)\nf% = a%\nEND FUNCTION\n', 'compile'),
+    # code generator: a record as a condition, after labels were handed out for FOR / SELECT
+    ('fail-codegen', 'DEFINT A-Z\nTYPE pt\nx AS INTEGER\nEND TYPE\nDIM p AS pt\ntwo: DATA 5\nFOR i = 1 TO 2\n'
+                     'SELECT CASE i\nCASE 1\nPRINT "a"\nEND SELECT\nNEXT\nIF p THEN PRINT 1\n', 'compile'),
 ]
 PROGS_T = PROGS + [
-    ('syntax-error', 'DEFLNG A-Z\nSUB bump\nFOR i = 1 TO 3\nIF i THEN\nPRINT 1 +\n'),
+    ('arrays', 'DIM a(3) AS INTEGER, b$(1 TO 2, 2)\nDIM SHARED c&(2)\na(1) = 4\nb$(1, 0) = "s"\n'
+               'c&(2) = a(1) * 2\nPRINT a(1); b$(1, 0); c&(2); UBOUND(a)\n', 'ok'),
+    ('many-labels', ''.join('L%s%d: PRINT %d\n' % (chr(97 + i % 7), i * 37 % 101, i) for i in range(24))
+                    + 'GOTO Lb37\nRESTORE Ld10\n', 'ok'),
+    ('defsng-while', 'DEFINT A-Z\nDEFSNG A-B\na = 1.5\nc = 1.5\nWHILE c < 4\nc = c + 1\nWEND\nPRINT a; c; 1 / 2\n', 'ok'),
+    # code generator inside a routine: an array used as a number
+    ('fail-codegen-sub', 'DEFLNG A-Z\nDIM SHARED arr(3)\nSUB s (k%)\nSTATIC t%\nFOR i% = 1 TO k%\nNEXT\nx = arr + 1\n'
+                         'END SUB\n', 'compile'),
 ]
+# programs that declare things / fail midway: the alphabet of the longest histories
+STATEFUL = ['deftype', 'type', 'labels', 'for-select', 'routines', 'fail-syntax', 'fail-pass2', 'fail-codegen']
 
 # programs whose random numbers come from the shipped random source
 RND_PROGS = [
@@ -51,9 +108,40 @@ RND_PROGS = [
     ('rnd-timer', 'RANDOMIZE TIMER\nx = RND\nPRINT x; RND(0)\nRANDOMIZE 7\nPRINT RND\n'),
 ]
 
+CFGS = [[o, g] for o, g in impl.CONFIGS]
+MIN_GROUPS = 6          # groups of differing compilations that are minimised
+SEG = 200               # compilations per chain process
+
 
 def cfgname(c):
     return 'O%d%s' % (c[0], 'g' if c[1] else '')
+
+
+def de_bruijn(k, n):
+    """cyclic de Bruijn sequence B(k, n) (every n-tuple over range(k) once)"""
+    a = [0] * (k * n + 1)
+    seq = []
+
+    def db(t, p):
+        if t > n:
+            if n % p == 0:
+                seq.extend(a[1:p + 1])
+        else:
+            a[t] = a[t - p]
+            db(t + 1, p)
+            for j in range(a[t - p] + 1, k):
+                a[t] = j
+                db(t + 1, t)
+    db(1, 1)
+    return seq
+
+
+def chain_segments(k, n, seg=SEG):
+    """the linearised B(k, n) cut into overlapping pieces: every n-tuple is a
+    window of exactly one piece"""
+    cyc = de_bruijn(k, n)
+    lin = cyc + cyc[:n - 1]
+    return [lin[i:i + seg + n - 1] for i in range(0, len(cyc), seg)]
 
 
 # --- children --------------------------------------------------------------
@@ -74,20 +162,22 @@ def spawn(job, seed, cwd):
 
 
 def job_worker(chunk, cwds):
-    """chunk of (tag, job, seed, cwdname) -> [(tag, seed, cwdname, records)]"""
+    """chunk of (tag, job, seed, cwdname) -> [(tag, seed, cwdname, job, records)]"""
     out = []
     for tag, job, seed, cw in chunk:
-        out.append((tag, seed, cw, spawn(job, seed, cwds[cw])))
+        recs = spawn(job, seed, cwds[cw])
+        slim = {k: v for k, v in job.items() if k != 'programs'}
+        out.append((tag, seed, cw, slim, recs))
     return out
 
 
 # --- the run side (in a pool worker of this process) -------------------------
 
 def run_worker(chunk, cwds, child_seeds):
-    impl.parse_cache(True)
+    impl.parse_cache(False)
     viol = []
     st = {'run_modules': 0, 'run_executions': 0, 'run_outcomes': set(),
-          'run_with_events': 0, 'realrng_runs': 0}
+          'run_with_events': set(), 'realrng_runs': 0}
     items = []
     local = {}
     for key, name, src, script, cfgs, kinds in chunk:
@@ -103,7 +193,7 @@ def run_worker(chunk, cwds, child_seeds):
                 st['run_executions'] += 2
                 st['run_outcomes'].add(tuple(d1))
                 if d1[4] > 0 and d1[5] != child._h('[]'):
-                    st['run_with_events'] += 1
+                    st['run_with_events'].add(k)
                 if kind == 'realrng':
                     st['realrng_runs'] += 1
                 case = {'mode': 'run', 'name': name, 'src': src, 'cfg': list(cfg),
@@ -114,8 +204,9 @@ def run_worker(chunk, cwds, child_seeds):
                                  case, d1, d2, len(src)))
                 local[k] = (d1, case)
                 items.append([k, base64.b64encode(r.binary).decode(), script, kind])
-    for seed, cw in child_seeds:
-        recs = spawn({'mode': 'run', 'items': items}, seed, cwds[cw])
+    for n, (seed, cw) in enumerate(child_seeds):
+        its = list(reversed(items)) if n % 2 == 0 else items
+        recs = spawn({'mode': 'run', 'items': its}, seed, cwds[cw])
         st['run_executions'] += len(recs)
         for k, d in recs:
             d1, case = local[k]
@@ -141,6 +232,7 @@ def _run_div(a, b):
 
 def _cmp(ref, got):
     """-> None | (divergence, sections)"""
+    ref, got = list(ref[:6]), list(got[:6])
     if ref == got:
         return None
     if ref[0] != got[0] or ref[0] != 'ok':
@@ -153,161 +245,292 @@ def _cmp(ref, got):
     return ('listing', '')
 
 
+def _judged(diff):
+    """a differing diagnostic of a program rejected both times is outside the
+    statement (it speaks about the module and the listing)"""
+    return diff is not None and diff[0] != 'diagnostic'
+
+
 def run(chk):
     quick = chk.tier == 'quick'
     progs = PROGS if quick else PROGS_T
-    names = [n for n, _ in progs]
-    srcs = [s for _, s in progs]
-    np_ = len(progs)
-    seeds = list(range(4)) if quick else list(range(16))
     tmpB = tempfile.mkdtemp(prefix='qv_c20_')
     cwds = {'A': ROOT, 'B': tmpB}
-    allcfg = [list(c) for c in impl.CONFIGS]
-    only = chk.only
     try:
-        _run(chk, quick, progs, names, srcs, np_, seeds, cwds, allcfg, only)
+        _run(chk, quick, progs, cwds)
     finally:
         shutil.rmtree(tmpB, ignore_errors=True)
 
 
-def _run(chk, quick, progs, names, srcs, np_, seeds, cwds, allcfg, only):
-    fam = {}
+QCFG_MIXED = [[0, False], [0, True], [1, True], [2, False]]
+ECFG = [[2, True]]
+
+
+def _compile_jobs(quick, progs):
+    """-> (jobs, family description).  job = (family, child job, seed, cwd);
+    one job = one fresh interpreter compiling one sequence"""
+    names = [p[0] for p in progs]
+    srcs = [p[1] for p in progs]
+    n = len(progs)
+    seeds = [0, 1, 2, 3] if quick else list(range(16)) + [123456789, 4294967295]
+    where = [(s, c) for c in 'AB' for s in seeds]
+    st = [names.index(x) for x in STATEFUL]
     jobs = []
-    # --- tree jobs -------------------------------------------------------
-    # seed 0 / cwd A: deepest histories, mixed configurations
-    deep = 3 if quick else 4          # history + target
-    shallow = 2 if quick else 3
-    mixed = 1 if quick else 2
-    if not only or 'history' in only:
-        groups = [list(range(i, np_, 3)) for i in range(3)] if quick else [[i] for i in range(np_)]
-        for c in allcfg:
-            for gsel in groups:
-                jobs.append(('tree', {'mode': 'tree', 'programs': srcs, 'maxlen': deep,
-                                      'configs': [c], 'firsts': gsel, 'mixed_depth': mixed,
-                                      'all_configs': allcfg}, 0, 'A'))
-        for s in seeds:
-            for cw in ('A', 'B'):
-                if (s, cw) == (0, 'A'):
-                    continue
-                cgroups = [allcfg[:3], allcfg[3:]] if quick else [[c] for c in allcfg]
-                for cg in cgroups:
-                    jobs.append(('tree', {'mode': 'tree', 'programs': srcs, 'maxlen': shallow,
-                                          'configs': cg, 'firsts': list(range(np_)),
-                                          'mixed_depth': 0, 'all_configs': allcfg}, s, cw))
-        # really fresh interpreter processes: one compilation each
-        fresh_cfgs = [[0, False], [2, True]] if quick else allcfg
-        fresh_where = [(0, 'A')] if quick else [(0, 'A'), (1, 'B'), (5, 'A')]
-        for s, cw in fresh_where:
-            for p in range(np_):
-                for c in fresh_cfgs:
-                    jobs.append(('fresh', {'mode': 'seq', 'items': [[[p, c], srcs[p], c[0], c[1]]]}, s, cw))
-        fam['history'] = {
-            'alphabet': names, 'max_history_seed0': deep - 1, 'max_history_other_seeds': shallow - 1,
-            'mixed_config_history_len': mixed, 'hash_seeds': seeds, 'cwds': 2,
-            'fresh_interpreter_compilations': len([j for j in jobs if j[0] == 'fresh'])}
+
+    def seqjob(fam, seq, seed, cw):
+        jobs.append((fam, {'mode': 'seqs', 'programs': srcs, 'seqs': [seq]}, seed, cw))
+
+    syms = [[p, o, g] for p in range(n) for o, g in CFGS]
+    # fresh interpreters compiling one symbol (the references): seed 0, cwd A
+    fcfg = [[0, False], [2, True]] if quick else CFGS
+    for p in range(n):
+        for c in fcfg:
+            seqjob('fresh', [[p] + c], 0, 'A')
+    # exact histories from the pristine state (thorough)
+    ex = []
+    if not quick:
+        ex += [[[h] + c, [t] + c] for c in ECFG for h in range(n) for t in range(n)]
+        st5 = st[:5]
+        ex += [[[a] + c, [b] + c, [t] + c] for c in ([2, True],)
+               for a in st5 for b in st5 for t in st5]
+    for i, seq in enumerate(ex):
+        s, cw = where[(i * 5 + i // len(where)) % len(where)]
+        seqjob('exact', seq, s, cw)
+    # mixed-configuration chains: all ordered pairs of symbols
+    mcfg = QCFG_MIXED if quick else CFGS
+    msyms = [[p] + c for p in range(n) for c in mcfg]
+    for i, seg in enumerate(chain_segments(len(msyms), 2)):
+        s, cw = where[i % len(where)]
+        seqjob('mixed', [msyms[j] for j in seg], s, cw)
+    # deep chains: all triples of programs in one configuration
+    dcfg = [[0, False]] if quick else [[0, False], [2, True]]
+    for ci, c in enumerate(dcfg):
+        for i, seg in enumerate(chain_segments(n, 3)):
+            s, cw = where[(i + ci + 1) % len(where)]
+            seqjob('deep', [[p] + c for p in seg], s, cw)
+    # the state-changing programs: triples in O2g (quick) / quadruples in O0, O2g (thorough)
+    for ci, c in enumerate([[2, True]]):
+        for i, seg in enumerate(chain_segments(len(st), 3 if quick else 4)):
+            s, cw = where[(i + ci + 3) % len(where)]
+            seqjob('deep-stateful', [[st[p]] + c for p in seg], s, cw)
+    # every symbol under every seed and working directory
+    for i, (s, cw) in enumerate(where):
+        r = (i * 11) % len(syms)
+        seqjob('seeds', syms[r:] + syms[:r], s, cw)
+    fam = {'alphabet': names, 'symbols': len(syms), 'hash_seeds': seeds, 'cwds': 2,
+           'exact': ('none beyond the first two compilations of every chain process' if quick else
+                     'every [h, t] in O2g, every [h1, h2, t] over ' + ','.join(STATEFUL[:5])
+                     + ' in O2g: each in its own fresh interpreter'),
+           'mixed_chain': 'de Bruijn order 2 over programs x (%s): all ordered pairs of symbols adjacent'
+                          % ','.join(cfgname(c) for c in mcfg),
+           'deep_chain': 'de Bruijn order 3 over the programs in each of ' + ','.join(cfgname(c) for c in dcfg),
+           'deep_stateful_chain': ('order 3 in O2g' if quick else 'order 4 in O2g') + ' over ' + ','.join(STATEFUL),
+           'chain_segment': SEG,
+           'fresh_interpreter_single_compilations': len([j for j in jobs if j[0] == 'fresh'])}
+    return jobs, fam
+
+
+def _cost(j):
+    job = j[1]
+    if job['mode'] == 'seqs':
+        return sum(len(s) for s in job['seqs'])
+    return 1
+
+
+def _minimise(srcs, ref, seq, pos, seed, cw, cwds):
+    """shortest history found that reproduces the difference in a fresh
+    interpreter under the same seed and cwd -> (history, digest, cause)"""
+    target = seq[pos]
+    prefix = [list(x) for x in seq[:pos]]
+    r = ref[tuple(target)]
+
+    def attempt(hist):
+        d = spawn({'mode': 'seqs', 'programs': srcs, 'seqs': [hist + [target]]}, seed, cwds[cw])[0][-1]
+        return d if _judged(_cmp(r, d)) else None
+
+    def drop_single(hist, d, budget):
+        i = 0
+        while i < len(hist) and len(hist) > 1 and budget > 0:
+            cand = hist[:i] + hist[i + 1:]
+            budget -= 1
+            d2 = attempt(cand)
+            if d2:
+                hist, d = cand, d2
+            else:
+                i += 1
+        return hist, d
+
+    for L in range(0, min(len(prefix), 3) + 1):
+        hist = prefix[len(prefix) - L:]
+        d = attempt(hist)
+        if d:
+            if L >= 2:
+                hist, d = drop_single(hist, d, 3)
+            return hist, d, ('seed-or-process' if L == 0 else 'history')
+    if len(prefix) <= 3:
+        return prefix, None, 'not-reproduced'
+    d = attempt(prefix)
+    if d is None:
+        return prefix, None, 'not-reproduced'
+    hist = prefix
+    while len(hist) > 4:
+        d2 = attempt(hist[len(hist) // 2:])
+        if not d2:
+            break
+        hist, d = hist[len(hist) // 2:], d2
+    hist, d = drop_single(hist, d, 40)
+    return hist, d, 'history'
+
+
+def _run(chk, quick, progs, cwds):
+    only = chk.only
+    fam = {}
+    names = [p[0] for p in progs]
+    srcs = [p[1] for p in progs]
+    jobs = []
+    SUB = {'fresh', 'exact', 'mixed', 'deep', 'deep-stateful', 'seeds'}
+    if not only or 'history' in only or only & SUB:
+        jobs, fam['history'] = _compile_jobs(quick, progs)
+        if only and only & SUB:      # development aid: some compile families only
+            jobs = [j for j in jobs if j[0] in only]
     # --- corpus jobs -------------------------------------------------------
     cases = corpus.cases()
-    ccfgs = [[0, False], [2, True]] if quick else allcfg
+    ccfgs = [[0, False], [2, True]] if quick else CFGS
     if not only or 'corpus' in only:
-        passes = [(0, 'A', False, 20), (1, 'A', True, 23)]
+        passes = [(0, 'A', False, 40), (1, 'B', True, 47)]
         if not quick:
-            passes.append((2, 'B', False, 17))
+            passes.append((2, 'A', False, 33))
         for pi, (s, cw, rev, csize) in enumerate(passes):
             idxs = list(range(len(cases)))
             if rev:
                 idxs.reverse()
             for i in range(0, len(idxs), csize):
-                items = []
-                for ci in idxs[i:i + csize]:
-                    for c in (reversed(ccfgs) if rev else ccfgs):
-                        items.append([[ci, c], cases[ci]['src'], c[0], c[1]])
-                jobs.append(('corpus%d' % pi, {'mode': 'seq', 'items': items}, s, cw))
+                part = idxs[i:i + csize]
+                seq = [[k] + c for k in range(len(part)) for c in (list(reversed(ccfgs)) if rev else ccfgs)]
+                jobs.append(('corpus%d' % pi, {'mode': 'seqs', 'programs': [cases[ci]['src'] for ci in part],
+                                               'seqs': [seq], 'cis': part}, s, cw))
         fam['corpus'] = {'programs': len(cases), 'configs': [cfgname(c) for c in ccfgs],
                          'passes': [{'seed': s, 'cwd': cw, 'reverse_order': rev, 'per_process': n}
                                     for s, cw, rev, n in passes]}
-    # longest jobs first
-    jobs.sort(key=lambda j: -(j[1].get('maxlen', 0) * 1000 + len(j[1].get('items', ()))))
+    jobs.sort(key=lambda j: -_cost(j))
     results = []
     for res in chk.pmap(job_worker, jobs, extra=(cwds,), chunk=1):
         results.extend(res)
 
     # --- judge compile records ---------------------------------------------
-    ref = {}
-    tree_recs = []
-    fresh_recs = []
+    recs = []          # (family, seed, cw, seq, pos, digest)
     corp = {}
-    for tag, seed, cw, recs in results:
-        if tag == 'tree':
-            for hist, p, hc, tc, d in recs:
-                tree_recs.append((seed, cw, tuple(hist), p, tuple(hc), tuple(tc), d))
-                if not hist and seed == 0 and cw == 'A':
-                    ref[(p, tuple(tc))] = d
-        elif tag == 'fresh':
-            for (p, c), d in recs:
-                fresh_recs.append((seed, cw, p, tuple(c), d))
-        else:
-            for (ci, c), d in recs:
-                corp.setdefault((ci, tuple(c)), []).append((tag, seed, cw, d))
+    for tag, seed, cw, job, out in results:
+        if tag.startswith('corpus'):
+            seq = job['seqs'][0]
+            cis = job['cis']
+            chain = [[cis[k], o, g] for k, o, g in seq]
+            for pos, d in enumerate(out[0]):
+                ci, o, g = chain[pos]
+                corp.setdefault((ci, o, g), []).append((tag, seed, cw, chain, pos, d))
+            continue
+        for seq, ds in zip(job['seqs'], out):
+            for pos, d in enumerate(ds):
+                recs.append((tag, seed, cw, seq, pos, d))
+    # reference of a symbol: its most pristine record (first compilation of a
+    # process, seed 0, cwd A where there is one).  Identity is transitive, so
+    # the choice only matters for attribution, not for detection.
+    ref = {}
+    refq = {}
+    for tag, seed, cw, seq, pos, d in recs:
+        t = tuple(seq[pos])
+        q = (pos != 0, seed != 0, cw != 'A', pos, str(seed), tag)
+        if t not in refq or q < refq[t]:
+            refq[t] = q
+            ref[t] = d
+    pristine = set(t for t, q in refq.items() if q[:3] == (False, False, False))
     ev = 0
-    nontriv = 0
+    distinct_cases = set()
     distinct = set()
     unstable_diag = 0
-    hist_seen = set()
-    pristine = {}
-    for seed, cw, hist, p, hc, tc, d in tree_recs:
-        if not hist:
-            pristine[(seed, cw, p, tc)] = d
-    for seed, cw, hist, p, hc, tc, d in tree_recs:
+    pairs = set()
+    triples = set()
+    hist_lens = {}
+    per_family = {}
+    differing = set()
+    for tag, seed, cw, seq, pos, d in recs:
         ev += 1
-        r = ref[(p, tc)]
-        distinct.add((p, tc, tuple(d)))
-        if d[0] == 'ok' and (hist or seed or cw != 'A'):
-            nontriv += 1
-        hist_seen.add((hist, hc != tc))
-        diff = _cmp(r, d)
+        per_family[tag] = per_family.get(tag, 0) + 1
+        t = tuple(seq[pos])
+        distinct.add((t, tuple(d)))
+        if d[0] == 'ok' and (pos or seed or cw != 'A' or tag != 'fresh'):
+            distinct_cases.add((tuple(tuple(x) for x in seq[:pos + 1]), seed, cw))
+        if pos >= 1:
+            pairs.add((tuple(seq[pos - 1]), t))
+        if pos >= 2:
+            triples.add((tuple(seq[pos - 2]), tuple(seq[pos - 1]), t))
+        if pos <= 2:
+            hist_lens[pos] = hist_lens.get(pos, 0) + 1
+        if _cmp(ref[t], d) is not None:
+            differing.add(t)
+    # a symbol with differences whose reference is not pristine gets a pristine one now
+    for t in sorted(differing - pristine):
+        ref[t] = spawn({'mode': 'seqs', 'programs': srcs, 'seqs': [[list(t)]]}, 0, cwds['A'])[0][0]
+    raw = []
+    for tag, seed, cw, seq, pos, d in recs:
+        t = tuple(seq[pos])
+        if t not in differing:
+            continue
+        diff = _cmp(ref[t], d)
         if diff is None:
             continue
         if diff[0] == 'diagnostic':
             unstable_diag += 1
             continue
-        pr = pristine.get((seed, cw, p, tc))
-        cause = 'history' if hist and pr == r else 'seed-or-process'
-        feat = {'family': 'history' if hist else 'fresh', 'divergence': diff[0], 'sections': diff[1],
-                'target': names[p], 'after': names[hist[-1]] if hist else None,
-                'config': cfgname(tc), 'mixed_config': hc != tc, 'cause': cause}
-        case = {'mode': 'history', 'history': [srcs[i] for i in hist],
-                'history_names': [names[i] for i in hist], 'history_cfg': list(hc),
-                'target': srcs[p], 'target_name': names[p], 'cfg': list(tc),
-                'seed': seed, 'cwd': cw}
-        chk.add_violations([(feat, case, r[:6], d[:6], len(hist) * 1000 + seed * 10 + (cw == 'B'))])
-    for seed, cw, p, tc, d in fresh_recs:
-        ev += 1
-        nontriv += d[0] == 'ok'
-        r = ref.get((p, tc))
-        if r is None:
-            continue
-        diff = _cmp(r, d)
-        if diff is None:
-            continue
-        if diff[0] == 'diagnostic':
-            unstable_diag += 1
-            continue
-        feat = {'family': 'fresh', 'divergence': diff[0], 'sections': diff[1], 'target': names[p],
-                'after': None, 'config': cfgname(tc), 'mixed_config': False,
-                'cause': 'seed-or-process'}
-        case = {'mode': 'history', 'history': [], 'history_names': [], 'history_cfg': list(tc),
-                'target': srcs[p], 'target_name': names[p], 'cfg': list(tc), 'seed': seed, 'cwd': cw}
-        chk.add_violations([(feat, case, r[:6], d[:6], seed * 10 + (cw == 'B'))])
+        raw.append((tag, seed, cw, None, seq, pos, d, diff))
+    # group, minimise, report
+    groups = {}
+    for v in raw:
+        tag, seed, cw, _f, seq, pos, d, diff = v
+        groups.setdefault((tuple(seq[pos]), diff), []).append(v)
+    for vs in groups.values():
+        vs.sort(key=lambda x: (x[5], x[1] != 0, x[2] != 'A', str(x[1])))
+    order = sorted(groups.items(), key=lambda kv: (kv[1][0][5], str(kv[0])))
+    nmin = 0
+    for gk, vs in order:
+        tag, seed, cw, _f, seq, pos, d, diff = vs[0]
+        t = seq[pos]
+        if pos == 0:
+            hist, dm, cause = [], d, 'seed-or-process'
+        elif nmin < MIN_GROUPS:
+            nmin += 1
+            hist, dm, cause = _minimise(srcs, ref, seq, pos, seed, cw, cwds)
+        else:
+            hist, dm, cause = [list(x) for x in seq[:pos]], d, 'not-minimised'
+        if dm is not None:
+            diff = _cmp(ref[tuple(t)], dm)
+        feat = {'family': 'history', 'divergence': diff[0], 'sections': diff[1],
+                'target': names[t[0]], 'config': cfgname(t[1:]), 'cause': cause,
+                'after': ([names[h[0]] + '/' + cfgname(h[1:]) for h in hist]
+                          if cause in ('history', 'seed-or-process') else None),
+                'hash_seed_0': all(x[1] == 0 for x in vs) if cause == 'not-minimised' else seed == 0}
+        case = {'mode': 'history', 'history': [[srcs[h[0]], h[1], h[2]] for h in hist],
+                'history_names': [names[h[0]] + '/' + cfgname(h[1:]) for h in hist],
+                'target': [srcs[t[0]], t[1], t[2]], 'target_name': names[t[0]],
+                'seed': seed, 'cwd': cw, 'found_in': tag, 'chain_position': pos,
+                'other_instances': len(vs) - 1}
+        size = len(hist) * 1000 + (seed != 0) * 10 + (cw == 'B')
+        for _ in vs:
+            chk.add_violations([(feat, case, ref[tuple(t)][:6], (dm or d)[:6], size)])
+    # --- corpus ------------------------------------------------------------
     corpus_ok = 0
-    for (ci, c), obs in sorted(corp.items()):
+    for key, obs in sorted(corp.items()):
+        ci, o, g = key
+        obs.sort(key=lambda x: x[0])
         ev += len(obs)
         base = obs[0]
-        if base[3][0] == 'ok':
+        if base[5][0] == 'ok':
             corpus_ok += 1
-            nontriv += len(obs) - 1
-        distinct.add(('corpus', ci, c, tuple(base[3])))
-        for o in obs[1:]:
-            diff = _cmp(base[3], o[3])
+            for x in obs[1:]:
+                distinct_cases.add(('corpus', key, x[0]))
+        distinct.add(('corpus', key, tuple(base[5])))
+        for x in obs[1:]:
+            diff = _cmp(base[5], x[5])
             if diff is None:
                 continue
             if diff[0] == 'diagnostic':
@@ -315,17 +538,36 @@ def _run(chk, quick, progs, names, srcs, np_, seeds, cwds, allcfg, only):
                 continue
             cs = cases[ci]
             feat = {'family': 'corpus', 'divergence': diff[0], 'sections': diff[1],
-                    'target': '%s#%d' % (cs['file'], cs['idx']), 'config': cfgname(c)}
-            case = {'mode': 'corpus', 'target': cs['src'], 'cfg': list(c),
-                    'a': {'pass': base[0], 'seed': base[1], 'cwd': base[2]},
-                    'b': {'pass': o[0], 'seed': o[1], 'cwd': o[2]}}
-            chk.add_violations([(feat, case, base[3][:6], o[3][:6], len(cs['src']))])
+                    'target': '%s#%d' % (cs['file'], cs['idx']), 'config': cfgname([o, g])}
+            case = {'mode': 'corpus', 'target': cs['src'], 'cfg': [o, g],
+                    'a': {'pass': base[0], 'seed': base[1], 'cwd': base[2], 'chain': base[3][:base[4] + 1]},
+                    'b': {'pass': x[0], 'seed': x[1], 'cwd': x[2], 'chain': x[3][:x[4] + 1]}}
+            chk.add_violations([(feat, case, base[5][:6], x[5][:6], len(cs['src']))])
     if 'corpus' in fam:
         fam['corpus']['accepted_program_configs'] = corpus_ok
     if 'history' in fam:
-        fam['history']['records'] = len(tree_recs)
-        fam['history']['distinct_histories'] = len(hist_seen)
-        fam['history']['reference_cells'] = len(ref)
+        h = fam['history']
+        h['compilations_per_family'] = per_family
+        h['reference_cells'] = len(ref)
+        h['pristine_references'] = len(pristine)
+        mc = set(tuple(c) for c in (QCFG_MIXED if quick else CFGS))
+        mp = set(x for x in pairs if x[0][1:] in mc and x[1][1:] in mc)
+        h['adjacent_symbol_pairs_covered'] = len(mp)
+        h['adjacent_symbol_pairs_wanted'] = (len(progs) * len(mc)) ** 2
+        h['adjacent_symbol_pairs_any_config'] = len(pairs)
+        nprog = len(progs)
+        ptr = set((a[0], b[0], c[0]) for a, b, c in triples if a[1:] == b[1:] == c[1:] == (0, False))
+        h['program_triples_covered_O0'] = len(ptr)
+        h['program_triples_possible'] = nprog ** 3
+        h['records_with_exact_history_of_length'] = {str(k): v for k, v in sorted(hist_lens.items())}
+        kinds = {names[p]: ref[(p, 0, False)][0] for p in range(nprog) if (p, 0, False) in ref}
+        h['alphabet_kinds'] = kinds
+        h['alphabet_as_designed'] = all(kinds.get(p[0]) == p[2] for p in progs)
+        h['programs_with_config_dependent_code'] = sum(
+            1 for p in range(nprog) if len(set(tuple(ref[(p, o, g)][1:5]) for o, g in impl.CONFIGS
+                                               if (p, o, g) in ref and ref[(p, o, g)][0] == 'ok')) > 1)
+        if len(mp) != h['adjacent_symbol_pairs_wanted'] or len(ptr) != nprog ** 3:
+            chk.cov['exhaustive'] = False
 
     # --- run side ------------------------------------------------------------
     if not only or 'runs' in only:
@@ -339,42 +581,61 @@ def _run(chk, quick, progs, names, srcs, np_, seeds, cwds, allcfg, only):
                     kinds.append('realrng')
                 items.append(('corpus%d' % i, '%s#%d' % (cs['file'], cs['idx']), cs['src'],
                               corpus.script_of(cs), rcfgs, kinds))
-        for n, s in progs:
-            items.append(('alpha-' + n, n, s, {}, list(impl.CONFIGS), ['env']))
+        for p in progs:
+            items.append(('alpha-' + p[0], p[0], p[1], {}, list(impl.CONFIGS), ['env']))
         for n, s in RND_PROGS:
             items.append(('rnd-' + n, n, s, {'timer': [1234.5, 99.25]}, list(impl.CONFIGS),
                           ['env', 'realrng']))
-        child_seeds = [(1, 'A')] if quick else [(1, 'A'), (7, 'B')]
-        for viol, st in chk.pmap(run_worker, items, extra=(cwds, child_seeds), chunk=16):
+        child_seeds = [(1, 'B')] if quick else [(1, 'B'), (7, 'A')]
+        for viol, st in chk.pmap(run_worker, items, extra=(cwds, child_seeds), chunk=20):
             chk.add_violations(viol)
             chk.merge_stats(st)
         fam['runs'] = {'programs': len(items), 'configs': [cfgname(c) for c in rcfgs],
-                       'in_process_repeats': 2, 'other_process': [{'seed': s, 'cwd': c} for s, c in child_seeds],
+                       'in_process_repeats': 2,
+                       'other_process': [{'seed': s, 'cwd': c, 'order': 'same' if i % 2 else 'reverse'}
+                                         for i, (s, c) in enumerate(child_seeds)],
                        'rnd_programs_on_shipped_random_source': [n for n, _ in RND_PROGS]}
         ev += chk.cov.get('run_executions', 0)
-        nontriv += chk.cov.get('run_with_events', 0)
+        nwe = len(chk.cov.get('_sets', {}).get('run_with_events', ()))
+    else:
+        nwe = 0
 
     chk.cov['evaluations'] = ev
-    chk.cov['distinct_nontrivial'] = nontriv
+    chk.cov['distinct_nontrivial'] = len(distinct_cases) + nwe
     chk.cov['distinct_compile_outcomes'] = len(distinct)
     chk.cov['unstable_diagnostics_not_judged'] = unstable_diag
-    if tree_recs:
-        chk.sample({'family': 'history', 'history': [names[i] for i in tree_recs[len(tree_recs) // 2][2]],
-                    'target': names[tree_recs[len(tree_recs) // 2][3]],
-                    'seed': tree_recs[len(tree_recs) // 2][0]})
-        chk.sample({'family': 'history', 'program': progs[3][1]})
+    chk.cov['compile_differences_before_grouping'] = len(raw)
+    if only:
+        chk.cov['exhaustive'] = False
+    if recs:
+        mid = [r for r in recs if r[0] == 'mixed']
+        if mid:
+            tag, seed, cw, seq, pos, d = mid[len(mid) // 2]
+            chk.sample({'family': 'mixed chain', 'seed': seed, 'cwd': cw, 'position': pos,
+                        'history (last 3)': [names[h[0]] + '/' + cfgname(h[1:]) for h in seq[max(0, pos - 3):pos]],
+                        'target': names[seq[pos][0]] + '/' + cfgname(seq[pos][1:]), 'digest': d})
+        ex = [r for r in recs if r[0] in ('exact', 'deep') and r[4] == 1]
+        if ex:
+            tag, seed, cw, seq, pos, d = ex[len(ex) // 3]
+            chk.sample({'family': tag + ' (second compilation of a process)', 'seed': seed, 'cwd': cw,
+                        'history': [names[h[0]] + '/' + cfgname(h[1:]) for h in seq[:pos]],
+                        'target': names[seq[pos][0]] + '/' + cfgname(seq[pos][1:]), 'digest': d})
+        chk.sample({'family': 'history', 'program': dict((p[0], p[1]) for p in progs)['fail-codegen']})
     chk.sample({'family': 'runs', 'program': RND_PROGS[1][1], 'peripherals': 'derived from BasePeripheralsImpl'})
     chk.assumptions = [
         'independence of the time of day is not enumerated (the compiler has no clock seam); runs happen at whatever time they happen',
-        'a forked copy of a process that has imported qbee but compiled nothing counts as a fresh process; really fresh interpreter processes are used for the listed subset',
+        'the reference of a (program, configuration) is its compilation as the only one of a fresh interpreter (seed 0, cwd A) where the tier has one (coverage key pristine_references), else its first-in-process / earliest record; identity being transitive, every pair of records of a symbol is compared through it',
+        'histories of length 2 (thorough: 3) are covered as the immediate predecessors of a target inside longer chains, not from the pristine state; exact histories from the pristine state go up to exact_history_max',
         'for rejected programs only acceptance is judged; a differing diagnostic (code / position) is counted in unstable_diagnostics_not_judged',
-        'TIMER is a scripted device input on the run side (the shipped time source reads the wall clock)']
+        'TIMER is a scripted device input on the run side (the shipped time source reads the wall clock)',
+        'forking a Python process that has imported qbee costs 0.3-5 CPU s on this machine (copy-on-write faults), spawning one about 1.2 s: chains plus post-hoc minimisation replace the fork tree of DESIGN section 4']
     chk.finish(
         rule=('a compile evaluation = one compilation of a target after a history of compilations in one process '
               '(or of a corpus snippet in a sequence) under a hash seed and working directory, compared by '
-              'sections 1-4 and listing with the reference (empty history, seed 0); non-trivial = target accepted '
-              'and the conditions differ from the reference (history, seed, cwd or process); a run evaluation = one '
-              'execution of a module with its script; non-trivial = the run produced device events'),
+              'sections 1-4 and listing with the reference (pristine process, seed 0, cwd A); distinct non-trivial = '
+              'distinct (whole in-process history, target, seed, cwd, process kind) with the target accepted and '
+              'conditions differing from the reference; a run evaluation = one execution of a module with its script; '
+              'distinct non-trivial = distinct (module, script, peripherals kind) whose run produced device events'),
         extra_cov={'families': fam, 'configs': [cfgname(c) for c in impl.CONFIGS]})
 
 
@@ -393,43 +654,63 @@ def _show_diff(a, b):
         print('listing identical')
 
 
+def _verdict(ref, got):
+    print('reference:', ref[:6])
+    print('observed :', got[:6])
+    diff = _cmp(ref, got)
+    if diff is None:
+        print('identical')
+        return 0
+    if ref[0] == 'ok' and got[0] == 'ok':
+        _show_diff(ref, got)
+    if diff[0] == 'diagnostic':
+        print('only the diagnostic differs (not judged)')
+        return 0
+    print('NOT DETERMINISTIC')
+    return 1
+
+
 def replay(rec):
     case = rec['case']
     tmpB = tempfile.mkdtemp(prefix='qv_c20_')
     cwds = {'A': ROOT, 'B': tmpB}
     try:
         if case['mode'] == 'history':
-            hc = case['history_cfg']
-            c = case['cfg']
-            items = [['h%d' % i, s, hc[0], hc[1]] for i, s in enumerate(case['history'])]
-            items.append(['target', case['target'], c[0], c[1]])
-            print('--- target (%s) ---' % cfgname(c))
-            print(case['target'])
-            print('--- history (%s): %s ; seed %s cwd %s ---' % (cfgname(hc), case['history_names'], case['seed'], case['cwd']))
-            ref = spawn({'mode': 'seq', 'full': True, 'items': items[-1:]}, 0, cwds['A'])[-1][1]
-            got = spawn({'mode': 'seq', 'full': True, 'items': items}, case['seed'], cwds[case['cwd']])[-1][1]
+            items = [list(x) for x in case['history']] + [list(case['target'])]
+            srcs = [x[0] for x in items]
+            seq = [[i, x[1], x[2]] for i, x in enumerate(items)]
+            print('--- target (%s) ---' % cfgname(case['target'][1:]))
+            print(case['target'][0])
+            print('--- compiled before it in the same process: %s ; hash seed %s, cwd %s ---'
+                  % (case['history_names'], case['seed'], case['cwd']))
+            for x in case['history']:
+                print('[%s]' % cfgname(x[1:]))
+                print(x[0])
+            ref = spawn({'mode': 'seqs', 'programs': srcs, 'seqs': [seq[-1:]], 'full': True},
+                        0, cwds['A'])[0][-1]
+            got = spawn({'mode': 'seqs', 'programs': srcs, 'seqs': [seq], 'full': True},
+                        case['seed'], cwds[case['cwd']])[0][-1]
+            print('reference = first compilation of a fresh interpreter, seed 0, cwd A')
+            return _verdict(ref, got)
         elif case['mode'] == 'corpus':
             c = case['cfg']
             print('--- target (%s) ---' % cfgname(c))
             print(case['target'])
-            it = [['target', case['target'], c[0], c[1]]]
-            ref = spawn({'mode': 'seq', 'full': True, 'items': it}, case['a']['seed'], cwds[case['a']['cwd']])[-1][1]
-            got = spawn({'mode': 'seq', 'full': True, 'items': it}, case['b']['seed'], cwds[case['b']['cwd']])[-1][1]
-            print('(replayed as first compilation of a fresh process under each seed; the sequence position is not replayed)')
+            cs = corpus.cases()
+            out = []
+            for side in ('a', 'b'):
+                ch = case[side]['chain']
+                srcs = [cs[ci]['src'] for ci, o, g in ch]
+                if srcs[-1] != case['target']:
+                    print('(the corpus changed; replaying the target alone)')
+                    srcs, ch = [case['target']], [[0, c[0], c[1]]]
+                seq = [[i, x[1], x[2]] for i, x in enumerate(ch)]
+                print('%s: %d earlier compilations, seed %s, cwd %s' % (side, len(seq) - 1, case[side]['seed'], case[side]['cwd']))
+                out.append(spawn({'mode': 'seqs', 'programs': srcs, 'seqs': [seq], 'full': True},
+                                 case[side]['seed'], cwds[case[side]['cwd']])[0][-1])
+            return _verdict(out[0], out[1])
         else:
             return _replay_run(case, cwds)
-        print('reference:', ref[:6])
-        print('observed :', got[:6])
-        if ref[:6] == got[:6]:
-            print('identical')
-            return 0
-        if ref[0] == 'ok' and got[0] == 'ok':
-            _show_diff(ref, got)
-        if _cmp(ref[:6], got[:6])[0] == 'diagnostic':
-            print('only the diagnostic differs (not judged)')
-            return 0
-        print('NOT DETERMINISTIC')
-        return 1
     finally:
         shutil.rmtree(tmpB, ignore_errors=True)
 
